@@ -62,7 +62,7 @@ func c29Supplies(ups, cores, downs []*seg.PathSegment, triples bool) []c29Supply
 
 func TestC29(t *testing.T) {
 	r := mc.NewRun(t, "C29", mc.Exploration)
-	r.Rule = "topology family (netsim.CombFamily, real beaconing along all loop-free walks) x segment-set variants (one generation; two generations in " +
+	r.Rule = "topology family (netsim.CombFamily incl. multi-ISD members whose ISDs re-use the same AS numbers, real beaconing along all loop-free walks) x segment-set variants (one generation; two generations in " +
 		"both supply orders; newer generation expiring earlier through one AS; older generation lacking the last peering link; segments of all ASes " +
 		"supplied; detachable EPIC extension on all ASes / every second AS / each single AS / one of two generations; static-info + discovery extensions on all / every second AS, also together with EPIC) x all ordered AS pairs x supplied subsets (everything; without cores; every single up / single down / (up,down) pair with all, " +
 		"none and each single core segment) x findAllIdentical {false,true} x every join found by the clean-room enumerator; distinct key = " +
@@ -190,6 +190,9 @@ func c29Check(r *mc.Run, vname string, srcIA, dstIA addr.IA, sup c29Supply, nCom
 			if !seqs[ik] {
 				seqs[ik] = true
 				*nSeqs++
+			}
+			if c28SharedNumber(c.Ifaces) {
+				r.Outcome("required-though-as-numbers-repeat-across-isds")
 			}
 			if got[ik] {
 				r.Outcome("returned/" + c.Kind)
